@@ -15,6 +15,7 @@ check : for every input module (hand corpus, front-end produced, generated + "pe
         4. correspondence for the P-part: the pass models `Model.Opt` that the preservation theorems of
            Props/C03.lean talk about run on the same text (`pass <name>`) and must give the alpha-equivalent module.
 """
+import collections
 import concurrent.futures
 import io
 import os
@@ -195,6 +196,32 @@ CORPUS = [
      "(block e (const %a u8 200) (const %b u8 100) (const %one i32 1) (cjump %a gt %b yes no)) "
      "(block yes (binop %r i32 add %x %one) (jump j)) (block no (jump j)) "
      "(block j (phi %q i32 (yes %r) (no %x)) (ret %q))))")),
+    # --- degenerate control flow: identical arms, forwarding chains reached through both arms, empty arms, self loops ---
+    # (a conditional jump whose two arms are, or become during CleanPass, the same empty block: seeded change 1, see notes)
+    ("degenerate-same-arms-empty", K("d1", "(func f global i32 e (params (a i32) (b i32)) (blocks "
+     "(block e (cjump %a eq %b B B)) (block B (jump T)) (block T (binop %r i32 add %a %b) (ret %r))))")),
+    ("degenerate-arms-become-same", K("d2", "(func f global i32 e (params (a i32) (b i32)) (blocks "
+     "(block e (cjump %a eq %b F1 F2)) (block F1 (jump G)) (block F2 (jump G)) (block G (jump T)) "
+     "(block T (binop %r i32 add %a %b) (ret %r))))")),
+    ("degenerate-arms-become-same-rev", K("d3", "(func f global i32 e (params (a i32) (b i32)) (blocks "
+     "(block e (cjump %a lt %b F1 F2)) (block G (jump T)) (block T (binop %r i32 add %a %b) (ret %r)) "
+     "(block F2 (jump G)) (block F1 (jump G))))")),
+    ("degenerate-arm-forwards-to-other-arm", K("d4", "(func f global i32 e (params (a i32) (b i32)) (blocks "
+     "(block e (cjump %a eq %b L M)) (block L (jump M)) (block M (jump N)) (block N (ret %a))))")),
+    ("degenerate-same-arms-phi", K("d5", "(func f global i32 e (params (a i32) (b i32)) (blocks "
+     "(block e (const %z i32 0) (cjump %a gt %z p q)) (block p (cjump %a eq %b B B)) (block q (jump T)) "
+     "(block B (jump T)) (block T (phi %v i32 (B %a) (q %b)) (ret %v))))")),
+    ("degenerate-same-arms-in-loop", K("d6", "(func f global i32 e (params (n i32)) (blocks "
+     "(block e (const %z i32 0) (const %one i32 1) (jump h)) "
+     "(block h (phi %i i32 (e %z) (l2 %i1)) (cjump %i lt %n b x)) "
+     "(block b (binop %i1 i32 add %i %one) (cjump %i1 eq %n l1 l1)) (block l1 (jump l2)) (block l2 (jump h)) "
+     "(block x (ret %i))))")),
+    ("degenerate-self-loops", K("d7", "(func f global i32 e (params (a i32) (b i32)) (blocks "
+     "(block e (cjump %a eq %b s s2)) (block s (cjump %a lt %b s t)) (block s2 (cjump %a gt %b s2 s2b)) "
+     "(block s2b (jump t)) (block t (ret %a))))")),
+    ("degenerate-const-same-arms-chain", K("d8", "(func f global i32 e (params (a i32)) (blocks "
+     "(block e (const %c1 i32 1) (const %c2 i32 2) (cjump %c1 lt %c2 F F)) (block F (jump G)) (block G (jump H)) "
+     "(block H (cjump %a eq %c1 I I)) (block I (ret %a))))")),
     # --- TailCallOptimization ---
     ("tailcall-sum", K("k7", "(func sum global i32 e (params (n i32) (acc i32)) (blocks "
      "(block e (const %z i32 0) (cjump %n le %z done rec)) (block done (ret %acc)) "
@@ -311,6 +338,13 @@ CORPUS = [
 ]
 
 C_SOURCES = {
+    "goto": """
+int g1(int c) { int r = 1; if (c) goto L; L: goto M; M: r = r + c; return r; }
+int g2(int c) { int r = 2; if (c) ; goto next; next: ; return r + c; }
+int g3(int c, int d) { int r = 0; if (c) { } else { } if (d) { if (c) { } } while (c > 100) { } r = c + d; return r; }
+int g4(int c) { int r = 0; switch (c) { case 1: case 2: break; default: ; } if (c) goto A; else goto A; A: return r + c; }
+int g5(int c) { int r = c; again: if (r > 10) { r = r - 3; goto again; } if (r) goto out; out: ; for (;;) { if (r) break; else break; } return r; }
+""",
     "tail": """
 int tsum(int n, int acc) { if (n <= 0) return acc; return tsum(n - 1, acc + n); }
 int gcd(int a, int b) { if (b == 0) return a; return gcd(b, a % b); }
@@ -381,8 +415,103 @@ def gen_texts(ctx, n):
             cnt = {}
         for kk, v in cnt.items():
             ctx.count(f"pessimise_{kk}", v)
-        out.append((f"gen{k}/{'plain' if not mode else 'pess' + str(mode)}", T.show(tree)))
+        dg = degenerate_cfg(ctx.rng, tree, 3) if k % 2 == 0 or mode == 2 else {}
+        for kk, v in dg.items():
+            ctx.count(f"degenerate_{kk}", v)
+        out.append((f"gen{k}/{'plain' if not mode else 'pess' + str(mode)}{'+dg' if dg else ''}", T.show(tree)))
     return out
+
+
+def degenerate_texts(ctx, texts, per):
+    """degenerate-control-flow variants of given modules (front-end produced / corpus)"""
+    out = []
+    for tag, text in texts:
+        for k in range(per):
+            tree = T.parse(text)
+            dg = degenerate_cfg(ctx.rng, tree, 3)
+            if dg:
+                for kk, v in dg.items():
+                    ctx.count(f"degenerate_{kk}", v)
+                out.append((f"{tag}+dg{k}", T.show(tree)))
+    return out
+
+
+# ---- degenerate control flow (well-formedness preserving rewrites of the text tree) -----------------------------
+
+def _retarget_phis(blocks, target, old_pred, new_preds):
+    """phis of block `target`: the input for `old_pred` becomes one input per block of `new_preds`"""
+    tb = next(b for b in blocks if b[1] == target)
+    for i in tb[2:]:
+        if i[0] == "phi":
+            src = [p for p in i[3:] if p[0] == old_pred]
+            if src:
+                v = src[0][1]
+                i[3:] = [p for p in i[3:] if p[0] != old_pred] + [[n, v] for n in new_preds]
+
+
+def degenerate_cfg(rng, tree, count):
+    """rewrite up to `count` unconditional jumps `B: jump T` of every function into degenerate shapes:
+    same-arms: cjump ? T : T | same-empty: cjump ? F : F, F: jump T | empty-arms: cjump ? F1 : F2, both jump T
+    | become-same: cjump ? F1 : F2, both jump G, G: jump T | chain: B -> F1 -> F2 -> T | self-loop: B -> S, S: cjump ? S : T.
+    New blocks are inserted before or after their users at random (CleanPass visits blocks in list order).
+    Phi inputs of T are moved to the new predecessor(s); every result is still well-formed (checked by the driver)."""
+    done = collections.Counter()
+    for fn in T.funcs_of(tree):
+        nm = T.Namer(fn)
+        for _ in range(rng.randint(0, count)):
+            blocks = T.blocks_of(fn)
+            cands = [b for b in blocks if len(b) > 2 and b[-1][0] == "jump" and b[-1][1] != b[1]]
+            if not cands:
+                break
+            b = rng.choice(cands)
+            tgt = b[-1][1]
+            kind = rng.choice(["same-arms", "same-empty", "empty-arms", "become-same", "chain", "self-loop"])
+            c1, c2 = nm.val("dg"), nm.val("dg")
+            x = rng.choice([0, 1, 7])
+            y = rng.choice([x, x, 2, -1])          # constant conditions (CJumpPass folds them) of both outcomes
+            cond = rng.choice(list(T.CONDS))
+            consts = [["const", "%" + c1, "i32", str(x)], ["const", "%" + c2, "i32", str(y)]]
+            ints = [p for p in T.params_of(fn) if p[1] == "i32"]
+            if ints and rng.random() < 0.5:          # a condition CJumpPass cannot fold
+                consts = consts[:1]
+                c2 = rng.choice(ints)[0]
+
+            def cj(yes, no):
+                return consts + [["cjump", "%" + c1, cond, "%" + c2, yes, no]]
+            new = []
+            if kind == "same-arms":
+                b[-1:] = cj(tgt, tgt)
+            elif kind == "same-empty":
+                f = nm.blk(fn[1] + "_dg")
+                b[-1:] = cj(f, f)
+                new = [["block", f, ["jump", tgt]]]
+                _retarget_phis(blocks, tgt, b[1], [f])
+            elif kind == "empty-arms":
+                f1, f2 = nm.blk(fn[1] + "_dg"), nm.blk(fn[1] + "_dg")
+                b[-1:] = cj(f1, f2)
+                new = [["block", f1, ["jump", tgt]], ["block", f2, ["jump", tgt]]]
+                _retarget_phis(blocks, tgt, b[1], [f1, f2])
+            elif kind == "become-same":
+                f1, f2, g = nm.blk(fn[1] + "_dg"), nm.blk(fn[1] + "_dg"), nm.blk(fn[1] + "_dg")
+                b[-1:] = cj(f1, f2)
+                new = [["block", f1, ["jump", g]], ["block", f2, ["jump", g]], ["block", g, ["jump", tgt]]]
+                _retarget_phis(blocks, tgt, b[1], [g])
+            elif kind == "chain":
+                f1, f2 = nm.blk(fn[1] + "_dg"), nm.blk(fn[1] + "_dg")
+                b[-1:] = [["jump", f1]]
+                new = [["block", f1, ["jump", f2]], ["block", f2, ["jump", tgt]]]
+                _retarget_phis(blocks, tgt, b[1], [f2])
+            else:
+                sl = nm.blk(fn[1] + "_dg")
+                b[-1:] = [["jump", sl]]
+                new = [["block", sl] + cj(sl, tgt)]
+                _retarget_phis(blocks, tgt, b[1], [sl])
+            rng.shuffle(new)
+            for nb in new:
+                lo = 2 if fn[6][1][1] == fn[4] else 1       # never before the entry block
+                fn[6].insert(rng.randint(lo, len(fn[6])), nb)
+            done[kind] += 1
+    return done
 
 
 # ---- plan / evaluation -----------------------------------------------------------------------------------------------
@@ -560,9 +689,14 @@ def drive(ctx, plans):
 def check(ctx):
     pass_set, order = pipeline_pass_set()
     ctx.extra_cov["optimize_pipeline"] = order
-    inputs = corpus_texts() + c_texts()
+    ctexts = c_texts()
+    inputs = corpus_texts() + ctexts
     ngen = 100 if ctx.thorough else 5
     inputs += gen_texts(ctx, ngen)
+    small_c = [x for x in ctexts if len(x[1]) < 9000]
+    inputs += degenerate_texts(ctx, small_c if ctx.thorough else small_c[:3], 3 if ctx.thorough else 1)
+    inputs += degenerate_texts(ctx, [x for x in corpus_texts() if x[0].split(":")[1].startswith(("mem2reg", "tailcall", "clean", "cjump"))],
+                               2 if ctx.thorough else 1)
     plans = []
     t0 = time.time()
     for k, (tag, text) in enumerate(inputs):
